@@ -27,7 +27,10 @@ macro "one_step_leaf" : tactic => `(tactic|
     | (split <;> (try split) <;> exact Step.of_mode0 (by simp_all) (by first | (simp_all; done) | (simp_all; omega)))
     | (refine ⟨?_, ?_, ?_⟩ <;> simp_all <;> omega)
     | (intro h; exact h)
-    | (intro h; simpa using h)))
+    | (intro h; simpa using h)
+    | rfl
+    | (split <;> rfl)
+    | (split <;> (try split) <;> rfl)))
 
 open Lean Elab Tactic Meta
 
